@@ -36,6 +36,9 @@ pub struct Spec {
     pub pos_seed: u64,
     pub n_collect: usize,
     pub n_discard: usize,
+    /// further run(n_collect, n_discard) calls on the same sampler object after the first one; their
+    /// draws are appended to the first call's (the shape stays the first call's)
+    pub more_calls: Vec<(usize, usize)>,
 }
 
 pub struct RunOut {
@@ -311,7 +314,15 @@ pub fn is_nuts(kind: &str) -> bool {
 
 /// Build the sampler from (inputs, seed) and run it once in `mode`.
 pub fn run_spec(spec: &Spec, mode: Mode) -> Result<RunOut, String> {
-    build(spec)?.run(spec.n_collect, spec.n_discard, mode)
+    let mut s = build(spec)?;
+    let mut out = s.run(spec.n_collect, spec.n_discard, mode)?;
+    for (c, d) in &spec.more_calls {
+        let more = s.run(*c, *d, mode)?;
+        out.bits.push(0xca11_ca11_ca11_ca11);
+        out.bits.extend(more.shape.iter().map(|x| *x as u64));
+        out.bits.extend(more.bits);
+    }
+    Ok(out)
 }
 
 /// Build the sampler from (inputs, seed).
